@@ -125,6 +125,10 @@ class ChunkedTransferReader(object):
                 raise ProtocolError(
                     'Invalid trailer: {0}'.format(error)) from error
 
+            if not trailer_data.endswith(b'\n'):
+                # End of stream before the line that ends the message.
+                raise NetworkError('Connection closed.')
+
             trailer_data_list.append(trailer_data)
 
             if not trailer_data.strip():
